@@ -496,6 +496,7 @@ def _query_branch_ok(body, nm: str):
 def run(repo: Repo, ctx) -> None:
     _run_main(repo, ctx)
     _r5(repo, ctx)
+    _r6(repo, ctx)
 
 
 VOL = 'edb.edgeql.compiler.inference.volatility'
@@ -623,3 +624,82 @@ def _r5(repo: Repo, ctx) -> None:
     if n < 4:
         raise AnalysisError(f'C08.R5: only {n} migration commands compile a '
                             f'transaction statement')
+
+
+def _r6(repo: Repo, ctx) -> None:
+    from ..absint import Facts, closed_edges, open_nodes
+    ctx.floor('C08.R6', 5)
+    # (a) SQL over the binary protocol: every DML statement, with or without
+    #     RETURNING, is given MODIFICATIONS before the unit is applied
+    cs = repo.func('edb.server.compiler.sql._compile_sql')
+    ctx.saw(cs)
+    g = CFG(cs.node)
+    mods = [n.id for n in g.nodes if n.kind == 'stmt' and isinstance(
+        n.ast, ast.AugAssign) and norm(n.ast.target) == 'unit.capabilities'
+        and 'MODIFICATIONS' in norm(n.ast.value)]
+    done = [n.id for n in g.nodes if any(
+        norm(c.func) in ('tx_state.apply', 'sql_units.append')
+        for c in g.node_calls(n))]
+    heads = [n.id for n in g.nodes if n.kind == 'for'
+             and any(x is n.ast for x in cs.node.body)]
+    if not mods or not done or not heads:
+        raise AnalysisError('C08.R6: _compile_sql anchors not found')
+    PG = 'edb.pgsql.ast'
+    for q in sorted(repo.subclasses(f'{PG}.DMLQuery')):
+        if not q.startswith(PG) or repo.subclasses(q, strict=True):
+            continue
+        for ret in (True, False):
+            F = Facts({'stmt.returning_list': ret}, cs.node)
+            F.inst['stmt'] = {c.split('.')[-1] for c in repo.mro(q)}
+            ce = closed_edges(g, F)
+            start = [s_ for s_, lab in g.nodes[heads[0]].succ if lab == 'T']
+            seen = g.reachable(start, avoid=set(mods) | {heads[0]},
+                               avoid_edges=ce) | set(start)
+            ok = not (set(done) & seen)
+            ctx.ob('C08.R6', f'_compile_sql:{q.split(".")[-1]}:returning='
+                   f'{ret}', ok,
+                   f'a SQL {q.split(".")[-1]} with returning_list={ret} '
+                   f'reaches the end of its unit without `capabilities |= '
+                   f'MODIFICATIONS`: a connection restricted to read-only '
+                   f'statements would be allowed to run it', cs.loc,
+                   sample='DMLQuery -> MODIFICATIONS on every path')
+    # (b) ANALYZE keeps what the analysed query does
+    ex = repo.func(f'{COMP}._compile_ql_explain')
+    ctx.saw(ex)
+    rets = [r for r in ast.walk(ex.node) if isinstance(r, ast.Return)
+            and r.value is not None]
+    ok = bool(rets)
+    for r in rets:
+        v = r.value
+        if isinstance(v, ast.Call) and norm(v.func) == 'dataclasses.replace' \
+                and v.args and norm(v.args[0]) == 'query':
+            continue
+        if isinstance(v, ast.Call) and kwarg(v, 'has_dml') is not None and \
+                norm(kwarg(v, 'has_dml')) == 'query.has_dml':
+            continue
+        ok = False
+    ctx.ob('C08.R6', '_compile_ql_explain:keeps-has_dml', ok,
+           'the Query returned for ANALYZE is not derived from the compiled '
+           'query (dataclasses.replace(query, ..)) and does not pass '
+           'has_dml on: `analyze insert ...` run with execute := true '
+           'modifies data without the MODIFICATIONS capability', ex.loc,
+           sample='dataclasses.replace(query, ...)')
+    # (c) a declared volatility below the inferred one is rejected, whatever
+    #     the declared value is
+    cf = repo.func('edb.schema.functions.FunctionCommand.'
+                   'compile_this_function')
+    ctx.saw(cf)
+    g = CFG(cf.node)
+    F = Facts({'spec_volatility is not None': True,
+               'spec_volatility is None': False,
+               'spec_volatility < ir.volatility': True,
+               'context.compat_ver_is_before((1, 0, verutils.VersionStage.'
+               'ALPHA, 8))': False}, cf.node)
+    on = open_nodes(g, F)
+    ok = g.exit not in on and 'spec_volatility < ir.volatility' in F.used
+    ctx.ob('C08.R6', 'compile_this_function:declared-below-inferred-rejected',
+           ok, 'a function whose declared volatility is lower than the one '
+           'inferred from its body is accepted for some declared values '
+           '(e.g. Volatile with a deleting body): calls are then compiled '
+           'without MODIFICATIONS', cf.loc,
+           sample='spec < inferred -> InvalidFunctionDefinitionError')
